@@ -52,7 +52,7 @@ func getMsgKey(q *dns.Msg) string {
 	)
 
 	question := q.Question[0]
-	buf := make([]byte, 1+2+1+len(question.Name)) // bits + qtype + qname length + qname
+	buf := make([]byte, 1+2+1+len(question.Name)+2) // bits + qtype + qname length + qname + qclass
 	b := byte(0)
 	// RFC 6840 5.7: The AD bit in a query as a signal
 	// indicating that the requester understands and is interested in the
@@ -71,6 +71,8 @@ func getMsgKey(q *dns.Msg) string {
 	buf[2] = byte(question.Qtype)
 	buf[3] = byte(len(question.Name))
 	copy(buf[4:], question.Name)
+	buf[4+len(question.Name)] = byte(question.Qclass >> 8)
+	buf[4+len(question.Name)+1] = byte(question.Qclass)
 	return utils.BytesToStringUnsafe(buf)
 }
 
